@@ -467,7 +467,7 @@ func pipelines(corpus string) []pipeline {
 
 	// vex: archive_latest.txt, HEAD + GET of the tar.zst archive, changes.csv
 	// (with one GET per changed advisory) and deletions.csv
-	ps = append(ps, pipeline{name: "vex", wrapper: "tar.zst", gen: func(rnd *hx.Rand, n int) []byte { return genVEXArchive(rnd, n+1) },
+	ps = append(ps, pipeline{name: "vex", wrapper: "tar.zst", gen: func(rnd *hx.Rand, n int) []byte { return genVEXArchive(rnd, n+2) },
 		valid: validVEXArchive, site: vexSite,
 		partValid: func(name string) func([]byte) bool {
 			switch {
